@@ -1,7 +1,7 @@
 #!/bin/bash
 # evaluate the wave-3 (harder) seeded changes CXX-m3 / CXX-m4 with run_seeded.sh; append to /tmp/wave3.log
 cd /verif
-declare -A EXTRA=( [C01-m3]="C15 C17" [C01-m4]="C17 C11" [C02-m3]="C17" [C04-m4]="C18 C14" [C05-m4]="C18" [C09-m4]="C18" [C10-m3]="C18" [C11-m3]="C17 C01" [C11-m4]="C09" [C13-m4]="C18" [C15-m3]="C01" [C17-m3]="C01 C11" [C17-m4]="C02" [C18-m3]="C16" [C18-m4]="C04 C10" [C19-m3]="C16" [C19-m4]="C16" [C12-m4]="C13" [C06-m3]="C12" [C20-m4]="C18")
+declare -A EXTRA=( [C01-m3]="C15 C17" [C01-m4]="C17 C11" [C02-m3]="C17" [C04-m4]="C18 C14" [C05-m4]="C18" [C09-m4]="C18" [C10-m3]="C18" [C11-m3]="C17 C01" [C11-m4]="C09" [C13-m4]="C18 C12" [C15-m3]="C01" [C17-m3]="C01 C11" [C17-m4]="C02" [C18-m3]="C16" [C18-m4]="C04 C10" [C19-m3]="C16" [C19-m4]="C16" [C12-m4]="C13" [C06-m3]="C12" [C20-m4]="C18")
 for t in "$@"; do
   p=${t%%-*}
   res=$(tools/run_seeded.sh $t $p ${EXTRA[$t]:-} 2>&1 | grep "check=")
